@@ -20,6 +20,8 @@ def funcs : List (String × String) := [
   ("framework/dns/dnssec.go:type ExtResolver", "7c35b0509d5a21eb"),
   ("framework/dns/dnssec.go:type RCodeError", "c9c367555fd263a9"),
   ("framework/dns/dnssec.go:type TLSA", "6a7f7e8889467d67"),
+  ("internal/target/remote/connect.go:remoteDelivery.attemptMX", "4e4fc74a865825d1"),
+  ("internal/target/remote/connect.go:remoteDelivery.connect", "e1c5b1ac86a44ff2"),
   ("internal/target/remote/dane.go:verifyDANE", "70fad5dc5bc554fe"),
   ("internal/target/remote/security.go:daneDelivery.CheckConn", "3650a0df52e21147"),
   ("internal/target/remote/security.go:daneDelivery.CheckMX", "9e668a7d7751404e"),
